@@ -27,6 +27,7 @@ def run(ctx, rep):
         check_jumpset(crate, opt, vm, rep, cfg)
         check_guard(crate, opt, rep, cfg)
         check_only(crate, opt, rep, cfg)
+        check_dumpvar(crate, opt, vm, rep, cfg)
 
 
 def variant_switches(body, crate, adt_suffix):
@@ -241,6 +242,36 @@ def check_guard(crate, opt, rep, cfg):
                     "instruction and execute the load it was meant to skip")
         else:
             rep.ok("C09.GUARD", key, opt.where(bb), what)
+
+
+def check_dumpvar(crate, opt, vm, rep, cfg):
+    """two cooperating sites: the VM's fused arms special-case the magic dump variable only for one-element paths, so the
+    optimiser must never start a multi-element fusion at it"""
+    static = "vm::state::MAGICAL_DUMP_VAR"
+    def mentions(body):
+        out = []
+        for bb, idx, s in body.stmts():
+            for op in iter_operands(s):
+                if op["k"] == "const" and (op.get("cdef") == static or static in str(op.get("psrc") or "")):
+                    out.append(bb)
+            if idx != "t" and s["k"] == "assign" and s["rv"]["k"] == "tls":
+                pass
+        return out
+    # statics are read through a pointer constant: look for the type `&&str` const whose cdef/ty mentions the static
+    def reads_static(body):
+        n = 0
+        import json
+        for bb, idx, s in body.stmts():
+            if '"static": "vm::state::MAGICAL_DUMP_VAR"' in json.dumps(s):
+                n += 1
+        return n
+    n_opt = reads_static(opt)
+    n_vm = reads_static(vm)
+    key = "C09.DUMPVAR:optimizer-excludes-magic-variable"
+    ok = n_opt >= 1 and n_vm >= 2
+    (rep.ok if ok else rep.bad)("C09.DUMPVAR", key, opt.where(0), "the VM's LoadPath/WritePath arms special-case `__tera_context` only for one-element paths (%d reads of "
+                                "MAGICAL_DUMP_VAR in the VM) and the optimiser's fusion-start test reads the same static (%d) so it never fuses attributes onto it" % (n_vm, n_opt)
+                                + ("" if ok else " — VIOLATED: a fused path starting at the magic variable takes State::get_value (undefined) instead of dump_context()"))
 
 
 def check_only(crate, opt, rep, cfg):
